@@ -614,9 +614,17 @@ func driver(args []string) int {
 	}
 	distinct := len(m.nt)
 	exit := 0
+	// A few cases that could not be judged (the reference model ran out of its step budget, a
+	// wall-clock backstop fired on a loaded machine) do not change the verdict on the cases that
+	// were judged: they are counted, listed below and in the evidence. More than a handful means
+	// the run itself is not trustworthy (a systemic cause) and is reported as inconclusive.
+	tolerated := m.Cases / 2000
+	if tolerated < 3 {
+		tolerated = 3
+	}
 	if violations > 0 {
 		exit = 1
-	} else if m.InconCount > 0 || distinct < floor {
+	} else if m.InconCount > tolerated || distinct < floor {
 		exit = 2
 		fmt.Printf("INCONCLUSIVE property=%s distinct_nontrivial=%d floor=%d inconclusive_cases=%d\n", o.prop, distinct, floor, m.InconCount)
 		for i, s := range m.Inconclusive {
@@ -626,8 +634,8 @@ func driver(args []string) int {
 		}
 	}
 
-	if exit == 1 && m.InconCount > 0 {
-		fmt.Printf("note: %d inconclusive cases, e.g.:\n", m.InconCount)
+	if exit != 2 && m.InconCount > 0 {
+		fmt.Printf("note: %d of %d cases could not be judged (not counted as held), e.g.:\n", m.InconCount, m.Cases)
 		for i, s := range m.Inconclusive {
 			if i < 4 {
 				fmt.Println("  ", oneLine(s, 400))
@@ -659,6 +667,7 @@ func driver(args []string) int {
 		"known_findings_open": known,
 		"witness_state":       witnessState,
 		"inconclusive":        m.InconCount,
+		"inconclusive_cases":  firstN(m.Inconclusive, 10),
 		"workers":             n,
 		"planned_cases":       total,
 	}
@@ -763,4 +772,15 @@ func replay(args []string) int {
 	}
 	fmt.Println("replay: no unlisted violation reproduced")
 	return 0
+}
+
+func firstN(ss []string, n int) []string {
+	if len(ss) > n {
+		ss = ss[:n]
+	}
+	out := make([]string, len(ss))
+	for i, s := range ss {
+		out[i] = oneLine(s, 300)
+	}
+	return out
 }
